@@ -262,6 +262,21 @@ class ProgRun:
         return self
 
 
+def rename_target_shadowed(prog):
+    """True if some module defines a local clock domain under a name that a DomainRenamer applied to that module or to one of its
+    ancestors renames something *to* - the construct behind open finding F58 (the renamed logic inside is captured by the local
+    domain instead of moving to the domain of that name outside the wrapped design)"""
+    def walk(m, targets):
+        t = set(targets)
+        for w in m["wrap"]:
+            if w[0] == "rename":
+                t |= set(w[1].values())
+        if any(n in t for n in (m.get("shadow") or {})):
+            return True
+        return any(walk(s_, t) for s_ in m["subs"])
+    return walk(prog["top"], set())
+
+
 def partial_part_targets(prog):
     """number of assignment targets that apply a part select to a *whole* signal of which the assigning (module, domain) owns
     only some bits (its reachable bits all lie inside those) - the construct behind open finding F28"""
